@@ -6,25 +6,52 @@
 (* element i mod n (negative indices count from the end), any other index   *)
 (* is refused - it is never clipped or wrapped.  The matrix holds pairwise  *)
 (* distinct values 10*r + c so that a selection identifies its source.      *)
+(*                                                                          *)
+(* The argument is a Sequence[int]: what is selected depends on the         *)
+(* integers it holds, in their order, and on nothing else.  Python has      *)
+(* several such sequences; besides the ones that spell their members out    *)
+(* (list, tuple) there is the arithmetic progression range(start, stop,     *)
+(* step), whose members are given by RangeSeq below (any sign of the step,  *)
+(* bounds anywhere, possibly empty).  Every argument is exported with the   *)
+(* list it denotes; the driver hands it to the real code in every form      *)
+(* that denotes it.                                                         *)
 (***************************************************************************)
 EXTENDS Integers, Sequences, TLC, Json
-CONSTANTS N, M, MaxLen
-VARIABLE ix
+CONSTANTS N, M, MaxLen,
+          MaxStep     \* the progressions step by -MaxStep .. MaxStep (not 0); 0 = no progression
+VARIABLE arg          \* [form: "list" | "range", ix (list), start, stop, step (range)]
+Steps == {s \in (-MaxStep)..MaxStep : s # 0}
 Cell(r, c) == 10 * r + c
 Rows == [r \in 1..N |-> [c \in 1..M |-> Cell(r - 1, c - 1)]]
 Range == (-(N + 1))..N \cup (-(M + 1))..M
 Lists == UNION {[1..k -> Range] : k \in 1..MaxLen}
-Init == ix \in Lists
-Next == UNCHANGED ix
-Spec == Init /\ [][Next]_ix
+\* bounds of a progression: the whole neighbourhood of the valid indices, one beyond on either side (a stop of -(n + 1)
+\* / n + 1 is what a progression running over the whole axis backwards / in steps of 2 ends with)
+Bounds == (-(N + 2))..(N + 1) \cup (-(M + 2))..(M + 1)
+Listed(ix) == [form |-> "list", ix |-> ix, start |-> 0, stop |-> 0, step |-> 0]
+Progression(a, b, s) == [form |-> "range", ix |-> <<>>, start |-> a, stop |-> b, step |-> s]
+\* members of Python's range(a, b, s), s # 0
+RangeLen(a, b, s) == IF s > 0 THEN (IF b > a THEN (b - a + s - 1) \div s ELSE 0)
+                     ELSE (IF a > b THEN (a - b + (-s) - 1) \div (-s) ELSE 0)
+RangeSeq(a, b, s) == [k \in 1..RangeLen(a, b, s) |-> a + (k - 1) * s]
+Ix == IF arg.form = "list" THEN arg.ix ELSE RangeSeq(arg.start, arg.stop, arg.step)
+Init == arg \in {Listed(ix) : ix \in Lists} \cup {Progression(a, b, s) : a \in Bounds, b \in Bounds, s \in Steps}
+Next == UNCHANGED arg
+Spec == Init /\ [][Next]_arg
 Valid(i, n) == -n <= i /\ i < n
 Pos(i, n) == (IF i < 0 THEN n + i ELSE i) + 1
-TakeRows == IF \A k \in DOMAIN ix : Valid(ix[k], N) THEN [ok |-> TRUE, rows |-> [k \in DOMAIN ix |-> Rows[Pos(ix[k], N)]]]
+TakeRows == IF \A k \in DOMAIN Ix : Valid(Ix[k], N) THEN [ok |-> TRUE, rows |-> [k \in DOMAIN Ix |-> Rows[Pos(Ix[k], N)]]]
             ELSE [ok |-> FALSE, rows |-> <<>>]
-TakeColumns == IF \A k \in DOMAIN ix : Valid(ix[k], M)
-               THEN [ok |-> TRUE, rows |-> [r \in 1..N |-> [k \in DOMAIN ix |-> Rows[r][Pos(ix[k], M)]]]]
+TakeColumns == IF \A k \in DOMAIN Ix : Valid(Ix[k], M)
+               THEN [ok |-> TRUE, rows |-> [r \in 1..N |-> [k \in DOMAIN Ix |-> Rows[r][Pos(Ix[k], M)]]]]
                ELSE [ok |-> FALSE, rows |-> <<>>]
 \* every selected value really is the cell the index denotes
-Sound == TakeRows.ok => \A k \in DOMAIN ix : TakeRows.rows[k][1] = Cell(Pos(ix[k], N) - 1, 0)
-Export == PrintT(ToJson([ix |-> ix, rows |-> TakeRows, cols |-> TakeColumns]))
+Sound == TakeRows.ok => \A k \in DOMAIN Ix : TakeRows.rows[k][1] = Cell(Pos(Ix[k], N) - 1, 0)
+\* a progression is what its definition says: starts at start, moves by step, stays strictly before stop, is maximal
+ProgressionSound == arg.form = "range" =>
+    /\ \A k \in DOMAIN Ix : /\ Ix[k] = arg.start + (k - 1) * arg.step
+                            /\ IF arg.step > 0 THEN Ix[k] < arg.stop ELSE Ix[k] > arg.stop
+    /\ LET beyond == arg.start + Len(Ix) * arg.step IN IF arg.step > 0 THEN beyond >= arg.stop ELSE beyond <= arg.stop
+Export == PrintT(ToJson([form |-> arg.form, start |-> arg.start, stop |-> arg.stop, step |-> arg.step,
+                         ix |-> Ix, rows |-> TakeRows, cols |-> TakeColumns]))
 =============================================================================
